@@ -156,6 +156,8 @@ def run(ctx, R, tier):
                         detail={'dominated': sorted(names_found)}, where=pb.where(gate))
 
     remove_rule(F, R)
+    # a pause / resume command the track reads reaches its state machine whatever state the track is in
+    c03.commands_reach_manager(F, R, rule='B.C12.cmd-applied', owners=c03.TRACK_OWNERS, floor=2)
     # 'resuming, immediately or at a start time': the track's fades and start delay advance by the time its slice covers
     from .c06 import ungated
     ungated(F, R, rule='B.C12.ungated', fn_filter=lambda q: q.startswith('track::'))
